@@ -31,6 +31,7 @@ fn main() {
         "timer" => mcv::linsock::run_timer(&ctx),
         "pipe" => mcv::l3::run_c12(&ctx),
         "flushorder" => mcv::l3::run_flush_order(&ctx),
+        "appendlimit" => mcv::l3::run_append_limit(&ctx),
         "toolarge" => mcv::l3::run_c13(&ctx),
         "sockframe" => mcv::l3::run_sock_frames(&ctx),
         "frame" => mcv::frame::run_c09(&ctx),
